@@ -409,6 +409,11 @@ fn handle(line: &str) -> Result<String, String> {
         "front" => Ok(op_front(&unhex(rest)?)),
         "check" => Ok(op_check(&unhex(rest)?)),
         "format" => Ok(op_format(&unhex(rest)?)),
+        "astx" => Ok(crate::verif_machine::op_astx(&unhex(rest)?)),
+        "machine" => {
+            let src_hex = rest.split(' ').next().unwrap_or("");
+            crate::verif_machine::op_machine(rest, &unhex(src_hex)?)
+        }
         "subtype" | "subtype_ne" | "unify" | "unify_all" | "tydisplay" => op_types(op, rest),
         "lsp_o2p" | "lsp_lc2o" | "lsp_whole" => crate::lsp::verif_lsp_op(op, rest),
         _ => Err(format!("unknown op {op}")),
